@@ -922,6 +922,21 @@ def corpus():
     d = {"fn": "shift", "dst": dst4, "src": None, "dsep": "/", "ssep": "/", "sep": "/", "flags": [0, 0, 0, 0, 0, 0],
          "from": ["b"], "to": ["a/c/b"]}
     cases.append(mk_case(d, ("corpus", "midcomponent", "shift", "pairs=1")))
+    # a parent P with 130 children (beyond any 50 / 64 / 100 / 128 switch to a name table) in ONE call of four or five pairs:
+    # an intermediate is created under P, a child leaves P, another arrives (the count is what it was), then a missing
+    # intermediate with the DEPARTED child's name has to be created under P; and the mirror image with the arrived child
+    wide = [("c%03d" % k, {}, [("g", {}, [])] if k == 5 else []) for k in range(130)]
+    dst5 = _tagged(("r", {}, [("P", {}, wide), ("Q", {}, []), ("a", {}, []), ("y", {}, []), ("z", {}, []), ("w", {}, [])]))
+    for fn in ("shift", "copy"):
+        for variant in (0, 1):
+            fr = ["r/a", "r/P/c005", "r/y", "r/z"] + (["r/w"] if variant else [])
+            to = ["r/P/n1/a", "r/Q/c005", "r/P/y", "r/P/c005/z"] + (["r/P/y/w"] if variant else [])
+            if fn == "copy":      # a copy leaves its origin: make room by shifting is not possible, use fresh names instead
+                fr = ["r/a", "r/y", "r/z"]
+                to = ["r/P/n1/a", "r/P/n1/y", "r/P/n%d/z" % (1 + variant)]
+            d = {"fn": fn, "dst": dst5, "src": None, "dsep": "/", "ssep": "/", "sep": "/", "flags": [0, 0, 0, 0, 0, 1],
+                 "from": fr, "to": to}
+            cases.append(mk_case(d, ("corpus", "wide>=100", fn, "pairs=%d" % len(fr))))
     return cases
 
 
